@@ -583,7 +583,8 @@ def replay(ctx, payload):
 
 
 # ----------------------------------------------------------------------------- C15 adapter (added by the integrator)
-_C15_FAM = {"int": "int", "bigint": "bigint", "str": "plain", "tuple": "tuple", "frozenset": "frozenset"}
+_C15_FAM = {"int": "int", "bigint": "bigint", "str": "plain", "tuple": "tuple", "frozenset": "frozenset",
+            "falsy": "int"}
 
 
 def c15_cases(rng, k):
